@@ -119,6 +119,16 @@ def token_cast_checks(rnd, n):
             got = f"raised {type(e).__name__}: {e}"
         if got != want and len(out) < 2:
             out.append((f"cast:form:{' '.join(toks)[:40]}", f"command-line tokens {toks} parse to {got!r}, the mapping spelling is {want!r}"))
+    # the string spelling find_jobs("k v ...") is cut at white space only: backslashes, quotes and braces inside a token reach the token parser as they are
+    for text, want in ((r"c /^\d$/", {"c": {"$regex": r"^\d$"}}), ('a {"$lt":3}', {"a": {"$lt": 3}}), ("k 'x", {"k": "'x"}), ('k "q"', {"k": '"q"'}), ("a 1 b /x\\.y/", {"a": 1, "b": {"$regex": "x\\.y"}}),
+                       ("k\tv", {"k": "v"})):
+        try:
+            with contextlib.redirect_stderr(io.StringIO()):
+                got = dict(parse_filter(text))
+        except Exception as e:
+            got = f"raised {type(e).__name__}: {e}"
+        if got != want and len(out) < 2:
+            out.append((f"cast:string:{text[:40]}", f"the filter string {text!r} parses to {got!r}, the mapping spelling is {want!r}"))
     try:
         with contextlib.redirect_stderr(io.StringIO()):
             parse_filter_arg(['{"a": 1}', "2"])
